@@ -1,1 +1,199 @@
-From TF Require Import Ty.
+(* C17 — Type operations obey the subtype lattice laws.
+   Only statements, `exact` proofs, Print Assumptions and non-vacuity examples live here.
+
+   Model: Ty.v (mask-level transcription of trustfall_core/src/ir/types/base.rs).  `wf_ty t` says the
+   mask of t encodes at most 30 list levels over a 0/1 scalar mask; C17_wf_iff_reachable shows this is
+   exactly "built by new_named_type / new_list_type".  `ty_meet a b` is the Ok-value of
+   `ty_intersect a b` (C17_intersect_no_panic).  `ty_sub parent child` is
+   `parent.is_scalar_only_subtype(child)`.  All statements quantify over ALL well-formed types (every
+   depth <= 30, every nullability pattern, every base name) and ALL field values. *)
+From TF Require Import Values ValuesProofs Ty TyProofs.
+Local Open Scope string_scope.
+
+(* ---------- well-formedness is reachability; constructors; no panics ---------- *)
+Theorem C17_wf_iff_reachable : forall t, wf_ty t = true <-> ty_reach t.
+Proof. exact wf_iff_reach. Qed.
+Print Assumptions C17_wf_iff_reachable.
+
+Theorem C17_named_type : forall s nl,
+  wf_ty (ty_named s nl) = true /\ ty_nullable (ty_named s nl) = nl /\ ty_is_list (ty_named s nl) = false /\
+  ty_as_list (ty_named s nl) = None /\ tbase (ty_named s nl) = s /\ ty_depth (ty_named s nl) = O.
+Proof. exact ty_named_wf. Qed.
+Print Assumptions C17_named_type.
+
+(* new_list_type panics exactly at 30 list levels (the at_max_list_depth check); below that it
+   returns a well-formed type that fits u64, whose as_list is the argument *)
+Theorem C17_list_type : forall t nl, wf_ty t = true ->
+  if Nat.eqb (ty_depth t) 30 then ty_list t nl = Panic site_new_list
+  else exists t', ty_list t nl = Ok t' /\ wf_ty t' = true /\ ty_as_list t' = Some t /\
+                  ty_nullable t' = nl /\ ty_is_list t' = true /\ tbase t' = tbase t /\
+                  ty_depth t' = S (ty_depth t) /\ (tmask t' < 2 ^ 64)%N.
+Proof. exact ty_list_spec. Qed.
+Print Assumptions C17_list_type.
+
+Theorem C17_depth_bound : forall t, wf_ty t = true -> (ty_depth t <= 30)%nat.
+Proof. exact ty_depth_le. Qed.
+Print Assumptions C17_depth_bound.
+
+Theorem C17_as_list : forall t t', wf_ty t = true -> ty_as_list t = Some t' ->
+  wf_ty t' = true /\ tbase t' = tbase t /\ ty_depth t = S (ty_depth t').
+Proof. exact ty_as_list_wf. Qed.
+Print Assumptions C17_as_list.
+
+Theorem C17_with_nullability : forall t nl, wf_ty t = true ->
+  wf_ty (ty_with_nullability t nl) = true /\ ty_nullable (ty_with_nullability t nl) = nl /\
+  ty_as_list (ty_with_nullability t nl) = ty_as_list t /\ tbase (ty_with_nullability t nl) = tbase t /\
+  ty_eq_ign_null (ty_with_nullability t nl) t = true.
+Proof. exact ty_with_nullability_spec. Qed.
+Print Assumptions C17_with_nullability.
+
+Theorem C17_intersect_no_panic : forall a b, wf_ty a = true -> wf_ty b = true ->
+  ty_intersect a b = Ok (ty_meet a b).
+Proof. exact ty_intersect_ok. Qed.
+Print Assumptions C17_intersect_no_panic.
+
+Theorem C17_intersect_result_wf : forall a b c, wf_ty a = true -> wf_ty b = true -> ty_meet a b = Some c ->
+  wf_ty c = true /\ tbase c = tbase a /\ tbase c = tbase b /\ ty_depth c = ty_depth a /\ ty_depth c = ty_depth b.
+Proof. exact ty_meet_wf. Qed.
+Print Assumptions C17_intersect_result_wf.
+
+(* ---------- intersect is the meet of the subtype order ---------- *)
+Theorem C17_intersect_comm : forall a b, wf_ty a = true -> wf_ty b = true -> ty_meet a b = ty_meet b a.
+Proof. exact ty_meet_comm. Qed.
+Print Assumptions C17_intersect_comm.
+
+Theorem C17_intersect_idem : forall a, wf_ty a = true -> ty_meet a a = Some a.
+Proof. exact ty_meet_idem. Qed.
+Print Assumptions C17_intersect_idem.
+
+Theorem C17_intersect_assoc : forall a b c, wf_ty a = true -> wf_ty b = true -> wf_ty c = true ->
+  obind (ty_meet a b) (fun x => ty_meet x c) = obind (ty_meet b c) (fun y => ty_meet a y).
+Proof. exact ty_meet_assoc. Qed.
+Print Assumptions C17_intersect_assoc.
+
+(* the result is a subtype of both inputs *)
+Theorem C17_intersect_lower_bound : forall a b c, wf_ty a = true -> wf_ty b = true ->
+  ty_meet a b = Some c -> ty_sub a c = true /\ ty_sub b c = true.
+Proof. exact ty_meet_lower. Qed.
+Print Assumptions C17_intersect_lower_bound.
+
+(* ... and the greatest one: every common subtype d is a subtype of the (then existing) result *)
+Theorem C17_intersect_greatest : forall a b d, wf_ty a = true -> wf_ty b = true -> wf_ty d = true ->
+  ty_sub a d = true -> ty_sub b d = true -> exists c, ty_meet a b = Some c /\ ty_sub c d = true.
+Proof. exact ty_meet_greatest. Qed.
+Print Assumptions C17_intersect_greatest.
+
+(* None exactly when base names or list shapes (= list depths) differ *)
+Theorem C17_intersect_none_iff : forall a b, wf_ty a = true -> wf_ty b = true ->
+  (ty_meet a b = None <-> tbase a <> tbase b \/ ty_depth a <> ty_depth b).
+Proof. exact ty_meet_none. Qed.
+Print Assumptions C17_intersect_none_iff.
+
+Theorem C17_intersect_none_iff_not_eq_ign_null : forall a b, wf_ty a = true -> wf_ty b = true ->
+  (ty_meet a b = None <-> ty_eq_ign_null a b = false).
+Proof. exact ty_meet_none_eqn. Qed.
+Print Assumptions C17_intersect_none_iff_not_eq_ign_null.
+
+(* ---------- the scalar subtype relation is a partial order ---------- *)
+Theorem C17_sub_refl : forall a, wf_ty a = true -> ty_sub a a = true.
+Proof. exact ty_sub_refl. Qed.
+Print Assumptions C17_sub_refl.
+
+Theorem C17_sub_antisym : forall a b, wf_ty a = true -> wf_ty b = true ->
+  ty_sub a b = true -> ty_sub b a = true -> a = b.
+Proof. exact ty_sub_antisym. Qed.
+Print Assumptions C17_sub_antisym.
+
+Theorem C17_sub_trans : forall a b c, wf_ty a = true -> wf_ty b = true -> wf_ty c = true ->
+  ty_sub a b = true -> ty_sub b c = true -> ty_sub a c = true.
+Proof. exact ty_sub_trans. Qed.
+Print Assumptions C17_sub_trans.
+
+(* ---------- equality ignoring nullability is an equivalence, implied by sub ---------- *)
+Theorem C17_eq_ign_null_refl : forall a, wf_ty a = true -> ty_eq_ign_null a a = true.
+Proof. exact ty_eqn_refl. Qed.
+Print Assumptions C17_eq_ign_null_refl.
+
+Theorem C17_eq_ign_null_sym : forall a b, wf_ty a = true -> wf_ty b = true ->
+  ty_eq_ign_null a b = ty_eq_ign_null b a.
+Proof. exact ty_eqn_sym. Qed.
+Print Assumptions C17_eq_ign_null_sym.
+
+Theorem C17_eq_ign_null_trans : forall a b c, wf_ty a = true -> wf_ty b = true -> wf_ty c = true ->
+  ty_eq_ign_null a b = true -> ty_eq_ign_null b c = true -> ty_eq_ign_null a c = true.
+Proof. exact ty_eqn_trans. Qed.
+Print Assumptions C17_eq_ign_null_trans.
+
+Theorem C17_eq_ign_null_iff : forall a b, wf_ty a = true -> wf_ty b = true ->
+  (ty_eq_ign_null a b = true <-> tbase a = tbase b /\ ty_depth a = ty_depth b).
+Proof. exact ty_eqn_iff. Qed.
+Print Assumptions C17_eq_ign_null_iff.
+
+Theorem C17_sub_implies_eq_ign_null : forall a b, wf_ty a = true -> wf_ty b = true ->
+  ty_sub a b = true -> ty_eq_ign_null a b = true.
+Proof. exact ty_sub_eqn. Qed.
+Print Assumptions C17_sub_implies_eq_ign_null.
+
+(* ---------- value validity ---------- *)
+(* a value valid for a type is valid for every supertype — for ALL values (also Enum-containing
+   ones: `valid b v = Ok true` already says the scan of v met no Enum) *)
+Theorem C17_valid_mono : forall a b v, wf_ty a = true -> wf_ty b = true ->
+  ty_sub a b = true -> ty_valid b v = Ok true -> ty_valid a v = Ok true.
+Proof. exact ty_valid_mono. Qed.
+Print Assumptions C17_valid_mono.
+
+(* valid for the intersection <-> valid for both (enum-free values) *)
+Theorem C17_valid_meet : forall a b c v, wf_ty a = true -> wf_ty b = true -> enum_free v = true ->
+  ty_meet a b = Some c ->
+  (ty_valid c v = Ok true <-> ty_valid a v = Ok true /\ ty_valid b v = Ok true).
+Proof. exact ty_valid_meet. Qed.
+Print Assumptions C17_valid_meet.
+
+(* is_valid_value cannot panic on enum-free values (any type, well-formed or not) *)
+Theorem C17_valid_no_panic_enum_free : forall t v, enum_free v = true -> exists b, ty_valid t v = Ok b.
+Proof. exact ty_valid_enum_free_ok. Qed.
+Print Assumptions C17_valid_no_panic_enum_free.
+
+(* ... and it panics (unimplemented!, defect F6, accounted under C12) exactly when the
+   short-circuiting scan reaches an Enum: `enum_reached` (TyProofs.v) = v is an Enum, or v is a list,
+   the type is a list, and some element reaches an Enum while all elements before it are valid *)
+Theorem C17_valid_panics_exactly_on_reached_enum : forall t v, wf_ty t = true ->
+  ((exists site, ty_valid t v = Panic site) <-> enum_reached (tbase t) (ty_view t) v = true).
+Proof. exact ty_valid_panic_iff. Qed.
+Print Assumptions C17_valid_panics_exactly_on_reached_enum.
+
+(* ---------- the fuel in the model is adequate ---------- *)
+Theorem C17_sub_fuel_adequate : forall f a b, wf_ty a = true -> wf_ty b = true -> (31 <= f)%nat ->
+  sub_fuel f a b = ty_sub a b.
+Proof. exact sub_fuel_adequate. Qed.
+Print Assumptions C17_sub_fuel_adequate.
+
+Theorem C17_intersect_fuel_adequate : forall f a b, wf_ty a = true -> wf_ty b = true -> (31 <= f)%nat ->
+  intersect_impl f a b = intersect_impl mask_fuel a b.
+Proof. exact intersect_fuel_adequate. Qed.
+Print Assumptions C17_intersect_fuel_adequate.
+
+(* ---------- non-vacuity: concrete, non-trivial well-formed types ---------- *)
+Example C17_nonvacuous :
+  wf_ty (ex_t "[[Int!]]!") = true /\ tmask (ex_t "[[Int!]]!") = 27%N /\
+  ty_intersect (ex_t "[[Int!]]!") (ex_t "[[Int]!]") = Ok (Some (ex_t "[[Int!]!]!")) /\
+  ty_intersect (ex_t "[Int]") (ex_t "[[Int]]") = Ok None /\
+  ty_intersect (ex_t "[Int]") (ex_t "[String]") = Ok None /\
+  ty_sub (ex_t "[[Int]]") (ex_t "[[Int!]!]!") = true /\ ty_sub (ex_t "[[Int!]!]!") (ex_t "[[Int]]") = false /\
+  ty_eq_ign_null (ex_t "[Int!]") (ex_t "[Int]!") = true /\
+  ty_valid (ex_t "[[Int!]]!") (List [List [I64 1; U64 2]; Null]) = Ok true /\
+  ty_valid (ex_t "[[Int]]") (List [List [I64 1; U64 2]; Null]) = Ok true /\
+  ty_valid (ex_t "[[Int!]!]!") (List [List [I64 1; U64 2]; Null]) = Ok false /\
+  enum_free (List [List [I64 1; U64 2]; Null]) = true /\
+  ty_valid (ex_t "[Int]") (List [Str "a"; Enum "x"]) = Ok false /\
+  ty_valid (ex_t "[Int]") (List [I64 1; Enum "x"]) = Panic site_enum.
+Proof. vm_compute. repeat split. Qed.
+Print Assumptions C17_nonvacuous.
+
+(* depth 30 is well formed and is where new_list_type panics; depth 29 does not *)
+Example C17_nonvacuous_max_depth :
+  (exists t, nest 30 (ty_named "Int" false) = Ok t /\ wf_ty t = true /\ ty_depth t = 30%nat /\
+             ty_list t true = Panic site_new_list /\ ty_intersect t t = Ok (Some t)) /\
+  nest 31 (ty_named "Int" false) = Panic site_new_list.
+Proof. vm_compute. split; [eexists; repeat split | reflexivity]. Qed.
+Print Assumptions C17_nonvacuous_max_depth.
